@@ -1,11 +1,15 @@
 package lens
 
 import (
+	"context"
+
 	"github.com/notaryproject/notation-go"
 	"github.com/notaryproject/notation-go/plugin"
 	"github.com/notaryproject/notation-go/verifier"
 	"github.com/notaryproject/notation-go/verifier/trustpolicy"
 	"github.com/notaryproject/notation-go/verifier/truststore"
+	"github.com/opencontainers/go-digest"
+	ocispec "github.com/opencontainers/image-spec/specs-go/v1"
 
 	"verifsim/world"
 )
@@ -102,3 +106,15 @@ func buildVerifier(c vcfg) (fullVerifier, error) {
 }
 
 func trustpolicyOption(s string) trustpolicy.TimestampOption { return trustpolicy.TimestampOption(s) }
+
+// verifyEntry verifies sig either through the OCI entry point (entry 0) or through the blob entry point
+// (entry 1: the descriptor the signature signs is handed over by a descriptor generator; buildVerifier's
+// blob document carries a global statement that mirrors the OCI one, so level, stores and identities are
+// the same on both paths).
+func verifyEntry(ctx context.Context, v fullVerifier, entry int64, desc ocispec.Descriptor, sig []byte, format string) (*notation.VerificationOutcome, error) {
+	if entry == 1 {
+		return v.VerifyBlob(ctx, func(digest.Algorithm) (ocispec.Descriptor, error) { return desc, nil }, sig,
+			notation.BlobVerifierVerifyOptions{SignatureMediaType: format})
+	}
+	return v.Verify(ctx, desc, sig, notation.VerifierVerifyOptions{ArtifactReference: "registry.example/repo@" + desc.Digest.String(), SignatureMediaType: format})
+}
